@@ -36,7 +36,13 @@ func checkPoolKey(c *engine.Ctx, rule string) {
 			}
 			src := engine.Provenance(st.Val, engine.ProvOpts{IntoCallee: true, Prog: c.P}) // the key may be built by a helper
 			if !src.HasField(dom) && !src.HasField(loc) && !src.HasField(usr) {
-				return // the no-route branch (req.URL.Host = req.Host)
+				// the no-route branch: the key must not be chosen by the client. A Host header spelled like a route's
+				// key would otherwise pick up that route's idle backend connection — without a route there is no
+				// credential check and no dial that could fail, so the request reaches the (protected) backend.
+				clientChosen := len(src.Fields) > 0 || len(src.Params) > 0 || len(src.Calls) > 0
+				c.Check(!clientChosen, "pkg/util/vhost.NewHTTPReverseProxy>no-route-key", in.Pos(), len(src.Values), []string{"key sources: " + src.Summary()},
+					"without a route the connection-pool key is a constant, not a value taken from the request")
+				return
 			}
 			n++
 			var missing []string
